@@ -782,4 +782,5 @@ def replay(run, impl):
 
 
 if __name__ == '__main__':
-    main()
+    from common import run_guarded
+    run_guarded('C13', main)
